@@ -1,3 +1,93 @@
+import Invoke.Model.Executor
 import Driver.Util
-/-! stub: replaced by the owner of this driver -/
-def main : IO Unit := Drv.mainLoop (fun _ => "bad-op")
+/-! Line-protocol driver for the `Executor` model (C04).
+
+    exec <dd:0|1> <dflt:idx|-> <tasks|-> <req|->
+      tasks = `;`-separated, task number i is the i-th entry: `cls:pre:post`
+      pre/post = `,`-separated calls `idx/pos/kw` (may only refer to EARLIER tasks)
+      pos = `+`-separated values, kw = `+`-separated `name=value`
+      value = `i<int>` | `s<char codes>`; name = char codes (decimal, `.`-separated)
+      req = `,`-separated `idx/kw`
+    answer: `<log> | <results> | <hyp>` with log = `,`-separated `id/pos/kw` (kw sorted by name),
+      results = `,`-separated `id=index`, hyp = 1 iff the decidable hypotheses of
+      `effective_args_dedupe_partial` hold for the expansion -/
+open Inv.Exec Drv
+
+def splitNE (s : String) (sep : String) : List String := if s.isEmpty then [] else s.splitOn sep
+
+def decVal (s : String) : AVal :=
+  if s.startsWith "i" then .int ((s.drop 1).toString.toInt?.getD 0) else .str (decChars (s.drop 1).toString)
+
+def decKW (s : String) : KW :=
+  (splitNE s "+").map (fun kv => match kv.splitOn "=" with
+    | [k, v] => (decChars k, decVal v)
+    | _ => ([], .int 0))
+
+def decPos (s : String) : List AVal := (splitNE s "+").map decVal
+
+def decCall (built : Array TaskT) (s : String) : Option CallT :=
+  match s.splitOn "/" with
+  | [i, p, k] => (i.toNat?.bind (fun n => built[n]?)).map (fun t => (t, ⟨decPos p, decKW k⟩))
+  | _ => none
+
+def decCalls (built : Array TaskT) (s : String) : Option (List CallT) :=
+  (splitNE s ",").mapM (decCall built)
+
+def decTasks (s : String) : Option (Array TaskT) :=
+  (splitNE s ";").foldlM (fun (built : Array TaskT) e =>
+    match e.splitOn ":" with
+    | [c, pre, post] => do
+      let cls ← c.toNat?
+      let p ← decCalls built pre
+      let q ← decCalls built post
+      pure (built.push (.mk built.size cls p q))
+    | _ => none) #[]
+
+def decReq (built : Array TaskT) (s : String) : Option (List (TaskT × KW)) :=
+  (splitNE s ",").mapM (fun r => match r.splitOn "/" with
+    | [i, k] => (i.toNat?.bind (fun n => built[n]?)).map (fun t => (t, decKW k))
+    | _ => none)
+
+def encVal : AVal → String
+  | .int i => "i" ++ toString i
+  | .str s => "s" ++ encChars s
+
+def ltChars : List Char → List Char → Bool
+  | [], [] => false
+  | [], _ :: _ => true
+  | _ :: _, [] => false
+  | a :: as, b :: bs => a.toNat < b.toNat || (a == b && ltChars as bs)
+
+def insSorted (kv : Name × AVal) : KW → KW
+  | [] => [kv]
+  | x :: r => if ltChars kv.1 x.1 then kv :: x :: r else x :: insSorted kv r
+
+def sortKW (kw : KW) : KW := kw.foldr insSorted []
+
+def encOcc (o : Occ) : String :=
+  toString o.id ++ "/" ++ "+".intercalate (o.args.pos.map encVal) ++ "/" ++
+    "+".intercalate ((sortKW o.args.kw).map (fun kv => encChars kv.1 ++ "=" ++ encVal kv.2))
+
+def hypOk (l : List Occ) : Bool :=
+  l.all (fun c => l.all (fun d =>
+    ((c.cls == d.cls) == (c.id == d.id)) && (c.id != d.id || sameSpelling c d)))
+
+def opt (s : String) : String := if s == "-" then "" else s
+
+def step (line : String) : String :=
+  match line.splitOn " " with
+  | ["exec", dd, dflt, tasks, req] =>
+    match decTasks (opt tasks) with
+    | none => "bad-tasks"
+    | some built =>
+      match decReq built (opt req) with
+      | none => "bad-req"
+      | some rq =>
+        let d : Option TaskT := if dflt == "-" then none else (dflt.toNat?.bind (fun n => built[n]?))
+        let r := execute (dd == "1") d rq
+        ",".intercalate (r.1.map encOcc) ++ " | " ++
+          ",".intercalate (r.2.map (fun kv => toString kv.1 ++ "=" ++ toString kv.2)) ++ " | " ++
+          (if hypOk (expand (normalize d rq)) then "1" else "0")
+  | _ => "bad-op"
+
+def main : IO Unit := mainLoop step
